@@ -165,16 +165,111 @@ def two_ops(d1, d2):
     return {"ops": a["ops"] + b["ops"], "frags": a["frags"] + b["frags"]}
 
 
-def gen_docs(c, n, dirs, alias, args, decor, label):
+def gen_docs(c, n, dirs, alias, args, decor, label, focus=(), deep=False):
     cfg = c.path("Gen_%s.cfg" % label)
     with open(cfg, "w") as f:
         f.write('CONSTANT MaxNodes = %d\nCONSTANT MaxDirs = %d\nCONSTANT MaxAlias = %d\nCONSTANT MaxArgs = %d\nCONSTANT MaxDecor = %d\n'
-                'CONSTANT Root = "Query"\nINIT Init\nNEXT Next\nINVARIANT DepthOK\nINVARIANT Emit\n' % (n, dirs, alias, args, decor))
+                'CONSTANT Root = "Query"\nCONSTANT Focus = {%s}\nCONSTANT OnlyDeepReuse = %s\nINIT Init\nNEXT Next\nINVARIANT DepthOK\nINVARIANT Emit\n'
+                % (n, dirs, alias, args, decor, ", ".join('"%s"' % x for x in focus), "TRUE" if deep else "FALSE"))
     g = vlib.run_tlc("gql/Gen_LimitDoc.tla", cfg, env={"SCHEMA": SCHEMA}, workers=8, timeout=1800, keep_lines=20, xmx="8g")
     if g.invariant_violated:
         raise vlib.ToolError("design-level failure in Gen_LimitDoc.tla: " + str(g.invariant_violated))
-    c.add_tlc("G %s (MaxNodes=%d, decorations<=%d)" % (label, n, decor), g)
+    c.add_tlc("G %s (MaxNodes=%d, decorations<=%d%s%s)" % (label, n, decor, ", fields " + "/".join(focus) if focus else "", ", only fragments spread at two depths" if deep else ""), g)
     return sorted(set(t[1] for t in g.tagged("REPLAY")))
+
+
+def spread(name):
+    return {"k": "spread", "name": name, "dirs": []}
+
+
+def field(name, sels=(), args=()):
+    return {"k": "field", "name": name, "alias": "", "args": list(args), "dirs": [], "sels": list(sels)}
+
+
+def placement_templates():
+    """One named fragment F spread at two or three different nesting depths of the chain `a { me { me { me { n } } } }`:
+    shallow placement first or deep placement first in document order, directly or through a second fragment G,
+    for several bodies of F (own nesting, a rule with an argument, a constant rule).  A walker that remembers
+    fragments instead of inlining them measures only the first placement."""
+    bodies = [("A", [field("n")]), ("A", [field("me", [field("n")])]), ("Node", [field("peer", [field("id")])]),
+              ("A", [field("kids", [field("id")], [{"name": "first", "val": I(2)}])]), ("A", [field("label")])]
+    L = 4
+    out = []
+    combos = [(i, j) for i in range(1, L + 1) for j in range(i + 1, L + 1)]
+    for on, fbody in bodies:
+        for levels in [c for c in combos] + [(1, 2, 3), (1, 3, 4), (2, 3, 4)]:
+            for first in ("shallow", "deep"):
+                for via in (("none", "deepest", "shallowest") if len(levels) == 2 else ("none",)):
+                    frags = [{"name": "F", "on": on, "dirs": [], "sels": json.loads(json.dumps(fbody))}]
+                    use_g = None
+                    if via == "deepest":
+                        use_g = levels[-1]
+                    elif via == "shallowest":
+                        use_g = levels[0]
+                    if use_g is not None:
+                        frags.append({"name": "G", "on": "A", "dirs": [], "sels": [field("n"), spread("F")]})
+
+                    def level(k):
+                        sels = []
+                        here = [spread("G" if k == use_g else "F")] if k in levels else []
+                        down = [field("me", level(k + 1))] if k < L else [field("n")]
+                        # document order: the spread before the chain continues = the shallower placement comes first
+                        return here + down if first == "shallow" else down + here
+                    out.append({"ops": [{"name": "", "ty": "query", "vars": [], "dirs": [], "sels": [field("a", level(1))]}], "frags": frags, "_dense": True})
+    return out
+
+
+def respread_elsewhere(ts, doc, rng):
+    """Spread one of the document's fragments once more at a place of a *different* nesting depth (or inside another
+    fragment that it does not reach: no cycle) whose static type overlaps the fragment's type condition.
+    Returns True if a spread was added."""
+    frag = {f["name"]: f for f in doc["frags"]}
+    if not frag:
+        return False
+
+    def names(sels, acc):
+        for s in sels:
+            if s["k"] == "spread":
+                acc.add(s["name"])
+            else:
+                names(s["sels"], acc)
+        return acc
+    direct = {n: names(f["sels"], set()) for n, f in frag.items()}
+
+    def reach(n):
+        seen, todo = set(), [n]
+        while todo:
+            x = todo.pop()
+            if x in seen or x not in direct:
+                continue
+            seen.add(x)
+            todo += list(direct[x])
+        return seen
+    fname = rng.choice(sorted(frag))
+    on = set(gqlgen.possible(ts, frag[fname]["on"]))
+    places, first_depth = [], []
+
+    def walk(sels, t, depth, owner):
+        if t and set(gqlgen.possible(ts, t)) & on:
+            places.append((sels, depth, owner))
+        for s in sels:
+            if s["k"] == "field":
+                if s["name"] != "__typename" and s["sels"]:
+                    walk(s["sels"], gqlgen.named(ts["types"][t]["fields"][s["name"]]["ty"]), depth + 1, owner)
+            elif s["k"] == "inline":
+                walk(s["sels"], s["on"] or t, depth + 1, owner)
+            elif s["name"] == fname and owner == "":
+                first_depth.append(depth)
+    walk(doc["ops"][0]["sels"], ts["query"], 0, "")
+    for n, f in sorted(frag.items()):
+        if fname not in reach(n) and n not in reach(fname):
+            walk(f["sels"], f["on"], 100, n)          # depth relative to the fragment: always "different"
+    cands = [p for p in places if p[1] not in first_depth]
+    if not cands:
+        return False
+    sels, _d, _o = rng.choice(cands)
+    sels.insert(rng.choice([0, len(sels)]), spread(fname))
+    return True
 
 
 def random_flat(ts, rng, arg_names):
@@ -222,7 +317,15 @@ def body(c):
     ndec = 1 if c.quick else 2
     decor = gen_docs(c, 4, 1, 1, 1, ndec, "decorated")       # <=4 nodes, <=ndec decorations (contains every smaller document)
     plain5 = [] if c.quick else gen_docs(c, 5, 0, 0, 0, 0, "plain")   # undecorated, 5 nodes, incl. re-spread fragments
-    total = len(set(decor) | set(plain5))
+    # one fragment spread at two different nesting depths (either order, also from inside another fragment): deeper bounds on field slices
+    deep = gen_docs(c, 5 if c.quick else 6, 0, 0, 0, 0, "deep-reuse", focus=["a", "me", "n", "node", "peer", "id"], deep=True)
+    deep += gen_docs(c, 6 if c.quick else 7, 0, 0, 0, 0, "deep-reuse-via-fragment", focus=["a", "me", "n"], deep=True)
+    deep = sorted(set(deep))
+    ndeep_total = len(deep)
+    cap_deep = 350 if c.quick else 6000
+    if len(deep) > cap_deep:
+        deep = rng.sample(deep, cap_deep)
+    total = len(set(decor) | set(plain5)) + ndeep_total
 
     parsed = {}
 
@@ -239,7 +342,7 @@ def body(c):
     small = [x for x in decor if nodes(x) <= 3]
     plain = [x for x in decor if nodes(x) == 4 and not decorated(x)] + [x for x in plain5 if nodes(x) == 5]
     rest = [x for x in decor if nodes(x) == 4 and decorated(x)]
-    cap_small, cap_plain, cap_decor = (1500, 500, 1000) if c.quick else (len(small), 12000, 20000)
+    cap_small, cap_plain, cap_decor = (1200, 400, 800) if c.quick else (len(small), 12000, 20000)
     exhaustive = True
     if len(small) > cap_small:
         small = rng.sample(small, cap_small)
@@ -263,12 +366,28 @@ def body(c):
             dropped += 1
             continue
         docs.append(d)
+    ndeep = 0
+    for fs in deep:
+        d = tree_from_flat(json.loads(fs), rng, arg_names)
+        if conflicts(d):
+            dropped += 1
+            continue
+        d["_dense"] = True
+        docs.append(d)
+        ndeep += 1
+    templates = placement_templates()
+    for d in templates:
+        if conflicts(d):
+            raise vlib.ToolError("placement template with a response-key conflict")
+    docs += templates
+    nbounded = len(docs)
     # seeded random bigger documents (valid by construction; key conflicts filtered)
     nrand = 300 if c.quick else 6000
     made = 0
+    nrespread = 0
     while made < nrand:
-        flat, spreads = random_flat(ts, rng, arg_names)
-        d = tree_from_flat(flat, rng, arg_names)
+        rflat, spreads = random_flat(ts, rng, arg_names)
+        d = tree_from_flat(rflat, rng, arg_names)
         # spread a fragment a second time at the place of its first spread (same static type: valid, no cycle)
         if d["frags"] and rng.random() < 0.5:
             fr = rng.choice(d["frags"])
@@ -282,13 +401,19 @@ def body(c):
                         return True
                 return False
             dup(d["ops"][0]["sels"]) or any(dup(f["sels"]) for f in d["frags"])
+        # ... and/or once more at a place of a different nesting depth (shallower or deeper, before or after, or inside another fragment)
+        if d["frags"] and rng.random() < 0.9:
+            for _ in range(rng.choice([1, 1, 2])):
+                if respread_elsewhere(ts, d, rng):
+                    d["_dense"] = True
+                    nrespread += 1
         if conflicts(d):
             continue
         docs.append(d)
         made += 1
     # two-operation documents (the measures are those of the whole document)
     ntwo = 100 if c.quick else 1500
-    base = [d for d in docs[:len(docs) - nrand]]
+    base = docs[:nbounded]
     for _ in range(ntwo):
         docs.append(two_ops(rng.choice(base), rng.choice(base)))
 
@@ -302,7 +427,8 @@ def body(c):
             forms = [VAR_FORMS[0]]
         for form in forms:
             dd, supplied = with_vars(d, form)
-            cases.append({"id": len(cases) + 1, "doc": dd, "opName": dd["ops"][0]["name"], "vars": supplied, "runs": []})
+            dense = bool(dd.pop("_dense", False))
+            cases.append({"id": len(cases) + 1, "doc": dd, "opName": dd["ops"][0]["name"], "vars": supplied, "runs": [], "dense": dense})
 
     # ---- V1: TLC computes the reference measures --------------------------------------------------------
     vlib.write_ndjson(c.path("docs.ndjson"), cases)
@@ -329,7 +455,11 @@ def body(c):
             val = {"depth": mm["depth"], "complexity": mm["cx_static"] if fl == "static" else mm["cx_dynamic"],
                    "recursive": mm["recursive"], "directives": mm["directives"]}
             for k in KINDS:
-                for off in (-1, 0, 1):
+                offs = [-1, 0, 1]
+                if case["dense"] and k != "directives":
+                    # a fragment placed at several depths: also every limit between the measures of the placements
+                    offs = list(range(-val[k], 2)) if k != "complexity" else list(range(-min(val[k], 4), 2))
+                for off in offs:
                     if val[k] + off >= 0:
                         case["runs"].append({"flavour": fl, "mode": "strict", "limits": lim(**{k: val[k] + off})})
             allv = {k: max(0, val[k] + rng.choice([-1, 0, 0, 0, 1])) for k in KINDS}
@@ -389,12 +519,19 @@ def body(c):
         raise vlib.ToolError("vacuous: rejected=%d accepted-and-executed=%d" % (nrej, nacc_ran))
     c.cov["traces_validated_against_impl"] = nrun
     c.cov["exhaustive"] = exhaustive
+    if ndeep == 0 or nrespread == 0:
+        raise vlib.ToolError("vacuous: no document spreads one fragment at two different depths (TLC %d, random %d)" % (ndeep, nrespread))
     c.cov["documents"] = len(docs)
+    c.cov["fragment_at_several_depths"] = {"tlc_documents": ndeep, "tlc_generated": ndeep_total, "templates": len(templates), "random_documents_respread": nrespread,
+                                           "limits": "every value 0..measure+1 for depth and nesting, measure-4..measure+1 for complexity"}
     c.cov["runs"] = {"total": nrun, "rejected": nrej, "accepted_and_executed": nacc_ran, "per_kind_accept_reject": seen_kind}
     c.cov["rule"] = ("G: valid query documents over the limits family: with <=3 nodes and <=%d decoration(s), undecorated with <=%d nodes "
                      "(named fragments spread once or twice, fragments in fragments) and with 4 nodes and <=%d decoration(s) "
                      "(argument feeding a rule: omitted / 0 / 1 / 4 / $c; 1-3 directives on a field; directive on a fragment; alias) -- TLC BFS of Gen_LimitDoc.tla, "
-                     "%d documents%s, %d dropped for response-key conflicts -- plus %d seeded random documents (4-14 nodes, up to 5 directives per field) and %d "
+                     "%d documents%s, %d dropped for response-key conflicts; one fragment spread at two different nesting depths (either document order, also from inside "
+                     "another fragment): every such document with <=5 nodes over a 6-field slice and <=6 nodes over a 3-field slice (thorough 6 / 7), plus a "
+                     "systematic template family (chain depth 4, 2-3 placements, 5 fragment bodies, through a second fragment), each run with every limit between "
+                     "the placements' measures -- plus %d seeded random documents (4-14 nodes, up to 5 directives per field, fragments re-spread at the same and at other depths) and %d "
                      "two-operation documents; crossed with the ways of defining/supplying $c; each run on the static family and (without @tag) its dynamic twin "
                      "with each limit at measure-1, measure, measure+1 (measure from TLC), one all-limits configuration and one fast-validation run; "
                      "distinct by (text, variables, flavour, mode, limits); every run is non-trivial (limit within 1 of the measure)"
